@@ -50,7 +50,7 @@ let parse_rrs spec =
             | _ -> None)
          | _ -> None)) (Some ([], [], [])) (split_on ',' spec)
 
-type pop = PBad | PBadRec | POp of op | PServers of int | PReinit
+type pop = PBad | PBadRec | POp of op | PServers of int | PReinit | PSet of (string * int * int) list
 
 let parse_op step =
   let starts p = String.length step >= String.length p && String.sub step 0 (String.length p) = p in
@@ -70,7 +70,35 @@ let parse_op step =
   else if step = "flush" then POp OFlush
   else if starts "servers " && String.length step = 9 && step.[8] >= 'A' && step.[8] <= 'C' then PServers (Char.code step.[8] - 65)
   else if step = "reinit" then PReinit
+  else if starts "set " then
+    (match field step "api", field step "list" with
+     | Some api, Some l ->
+       let items = if l = "-" then [] else split_on ',' l in
+       (try
+          PSet (List.map (fun it ->
+            if api = "nodes" then (it, 0, 0)
+            else if api = "pnodes" then (match split_on '/' it with [a; u; t] -> (a, int_of_string u, int_of_string t) | _ -> failwith "x")
+            else if String.length it > 0 && it.[0] = '[' then
+              (match String.index_opt it ']' with
+               | Some j -> let a = String.sub it 1 (j - 1) in
+                 let rest = String.sub it (j + 1) (String.length it - j - 1) in
+                 if rest = "" then (a, 0, 0) else let p = int_of_string (String.sub rest 1 (String.length rest - 1)) in (a, p, p)
+               | None -> failwith "x")
+            else (match split_on ':' it with [a] -> (a, 0, 0) | [a; p] -> (a, int_of_string p, int_of_string p) | _ -> failwith "x")) items)
+        with _ -> PBad)
+     | _ -> PBad)
   else PBad
+
+(* addresses are abstract numbers in the model *)
+let addr_tbl : (string, int) Hashtbl.t = Hashtbl.create 16
+let addr_names : (int, string) Hashtbl.t = Hashtbl.create 16
+let addr_id a = match Hashtbl.find_opt addr_tbl a with
+  | Some n -> n
+  | None -> let n = Hashtbl.length addr_tbl + 1 in Hashtbl.replace addr_tbl a n; Hashtbl.replace addr_names n a; n
+let srv_str l =
+  if l = [] then "srv=-" else
+  "srv=" ^ String.concat "," (List.map (fun s -> let ((a, u), t) = s.s_key in
+    Printf.sprintf "%s/%s/%s/%d" (try Hashtbl.find addr_names (int_of_z a) with Not_found -> "?") (string_of_z u) (string_of_z t) (int_of_nat s.s_idx)) (sort_idx l))
 
 let ttl_str l = if l = [] then "-" else String.concat "," (List.map (fun (t, v) -> Printf.sprintf "%s:%s/%s" (type_name (int_of_z t)) (string_of_z v) (string_of_z v)) l)
 
@@ -109,10 +137,16 @@ let () =
       let c = ref (qc_create (z_of_int maxttl)) in
       let hist = ref [] in
       let cur = ref 0 in
+      let hint key = (match field head key with Some s -> (match int_of_string_opt s with Some n -> n | None -> 0) | None -> 0) in
+      let cu = z_of_int (hint "udp") and ct = z_of_int (hint "tcp") and primary = hint "primary" <> 0 in
+      let sconf_of (a, u, t) = { sc_addr = z_of_int (addr_id a); sc_udp = z_of_int u; sc_tcp = z_of_int t } in
+      let (srv0, _) = servers_update cu ct primary [] [sconf_of ("127.0.0.1", 0, 0)] in
+      let srvs = ref srv0 in
+      let seq = ref (spec_seq_after cu ct primary [sconf_of ("127.0.0.1", 0, 0)]) in
       let ub = ref false and diffs = ref [] and fails = ref [] in
       let n_hit = ref 0 and n_miss = ref 0 and n_ins = ref 0 and n_rej = ref 0 and n_flush = ref 0 and n_aged = ref 0 in
-      let do_op idx step il o =
-        (match qc_step !c o with
+      let do_op ?(spec_flush = true) ?(model_flush = true) ?(suffix = "") idx step il o =
+        (match (if o = OFlush && not model_flush then Ok (!c, RFlush) else qc_step !c o) with
          | Ok (c', r) ->
            c := c';
            let ml = (match r with
@@ -121,7 +155,7 @@ let () =
                | RFetch (Some (rs, dec)) ->
                  incr n_hit; if int_of_z dec > 0 then incr n_aged;
                  Printf.sprintf "F st=0 id=%s rc=%s tc=%d ttl=%s" (string_of_z rs.rs_id) (string_of_z rs.rs_rcode) (if rs.rs_tc then 1 else 0) (ttl_str (visible_ttls rs dec))
-               | RFlush -> incr n_flush; "X") in
+               | RFlush -> incr n_flush; "X" ^ suffix) in
            if ml <> il then diffs := Printf.sprintf "step %d (%s) model=[%s] impl=[%s]" idx step ml il :: !diffs
          | Err _ -> ub := true; diffs := Printf.sprintf "step %d model=Err" idx :: !diffs
          | UB _ -> ub := true; diffs := Printf.sprintf "step %d (%s) model=UB impl=[%s]" idx step il :: !diffs);
@@ -142,7 +176,10 @@ let () =
               end
             | None -> fails := ("hit_unparsable", Printf.sprintf "step=%d impl=[%s]" idx il) :: !fails)
          | _ -> ());
-        hist := o :: !hist in
+        if not (o = OFlush && not spec_flush) then hist := o :: !hist in
+      (match List.find_opt (fun l -> String.length l >= 5 && String.sub l 0 5 = "init ") got with
+       | Some l -> let ml = "init " ^ srv_str !srvs in if l <> ml then diffs := Printf.sprintf "init model=[%s] impl=[%s]" ml l :: !diffs
+       | None -> if not monitor_seen then diffs := "no init line" :: !diffs);
       List.iteri (fun idx step ->
         if not !ub then begin
           let il = (match Hashtbl.find_opt itbl idx with Some l -> l | None -> "<missing>") in
@@ -154,11 +191,19 @@ let () =
             if n <> !cur then begin cur := n; do_op idx step il OFlush end
             else if il <> "X" then diffs := Printf.sprintf "step %d model=[X] impl=[%s]" idx il :: !diffs
           | PReinit -> do_op idx step il OFlush
+          | PSet items ->
+            let nw = List.map sconf_of items in
+            let (l', changed) = servers_update cu ct primary !srvs nw in
+            srvs := l';
+            let sq = spec_seq_after cu ct primary nw in
+            let spec_changed = not (seq_eqb !seq sq) in
+            seq := sq;
+            do_op ~spec_flush:spec_changed ~model_flush:changed ~suffix:(" rc=0 " ^ srv_str l') idx step il OFlush
         end) steps;
       let cls =
         if !ub then "model-ub"
         else if !n_ins + !n_hit < 2 then (if !n_rej > 0 && maxttl = 0 then "qc-disabled" else "trivial")
-        else Printf.sprintf "qc%s%s%s%s%s" (if !n_hit > 0 then "+hit" else "") (if !n_aged > 0 then "+aged" else "") (if !n_miss > 0 then "+miss" else "")
+        else Printf.sprintf "qc%s%s%s%s%s%s" (match field head "ek" with Some e -> "+edit:" ^ (List.hd (split_on '+' e)) | None -> "") (if !n_hit > 0 then "+hit" else "") (if !n_aged > 0 then "+aged" else "") (if !n_miss > 0 then "+miss" else "")
             (if !n_rej > 0 then "+rejected" else "") (if !n_flush > 0 then "+flush" else "") in
       Printf.printf "CASE %d %s\n" k cls;
       if not monitor_seen then begin
